@@ -404,7 +404,13 @@ def to_expr(n, rich=False):
     if k == "PackExpansionExpr":
         return ("pack", to_expr(ks[0], rich))
     if k == "CXXFoldExpr":
-        return ("fold", n.get("opcode", ""), [to_expr(c, rich) for c in ks if c.get("kind")])
+        op = n.get("opcode", "")
+        if not op:
+            t = ntext(n)
+            m = re.search(r"(\+|-|\*|/|&&|\|\||,|&|\|)\.\.\.|\.\.\.(\+|-|\*|/|&&|\|\||,|&|\|)", t)
+            if m:
+                op = m.group(1) or m.group(2)
+        return ("fold", op, [to_expr(c, rich) for c in ks if c.get("kind")])
     if k == "SizeOfPackExpr":
         return ("sizeofpack", ntext(n))
     return ("other", k, ntext(n))
